@@ -44,12 +44,12 @@ def u_convert_numpy(W, sk):
     W.prove("dict.processes", d["processes"] == list(S.processes.keys()))
     W.prove("dict.flows.every_flow_once", list(d["flows"].keys()) == list(S.flows.keys()))
     for nm, f in S.flows.items():
-        v = d["flows"][nm]
+        v = d["flows"].get(nm)
         W.prove(f"dict.flows[{nm}].values", v is f.values)
-        W.prove(f"dict.flows[{nm}].dimensions_and_processes", d["flow_dimensions"][nm] == tuple(x.letter for x in f.dims.dim_list) and d["flow_processes"][nm] == (f.from_process.name, f.to_process.name))
+        W.prove(f"dict.flows[{nm}].dimensions_and_processes", d["flow_dimensions"].get(nm) == tuple(x.letter for x in f.dims.dim_list) and d["flow_processes"].get(nm) == (f.from_process.name, f.to_process.name))
     W.prove("dict.stocks.every_stock_once", list(d["stocks"].keys()) == list(S.stocks.keys()))
     for nm, s in S.stocks.items():
-        W.prove(f"dict.stocks[{nm}].values", d["stocks"][nm] is s.stock.values and d["stock_dimensions"][nm] == tuple(x.letter for x in s.stock.dims.dim_list))
+        W.prove(f"dict.stocks[{nm}].values", d["stocks"].get(nm) is s.stock.values and d["stock_dimensions"].get(nm) == tuple(x.letter for x in s.stock.dims.dim_list))
         W.prove(f"dict.stocks[{nm}].process", (d["stock_processes"].get(nm) == s.process.name) if s.process is not None else nm not in d["stock_processes"])
     out2 = W.call(lambda: convert_to_dict(mfa, "xml"))
     SL.check_raises(W, "convert_to_dict(unknown type)", out2, ValueError)
@@ -482,8 +482,12 @@ def sk_plotter(tier):
     for roles in [("", "", "x"), ("", "c", "x"), ("s", "", "x"), ("s", "c", "x")]:
         for order in itertools.permutations([l for l in roles if l]):
             for naming in ("names", "letters"):
-                for xarr in ("default", "same_dims", "subset_permuted"):
+                for xarr in ("default", "same_dims", "subset_permuted", "line_dim_only", "subplot_dim_only", "intra_dim_only"):
                     if xarr == "subset_permuted" and len(order) < 2:
+                        continue
+                    if (xarr == "line_dim_only" and not roles[1]) or (xarr == "subplot_dim_only" and not roles[0]):
+                        continue
+                    if xarr in ("line_dim_only", "subplot_dim_only", "intra_dim_only") and (naming == "letters" or order != tuple(l for l in roles if l)):
                         continue
                     if tier == "quick" and naming == "letters" and len(order) == 3 and xarr == "same_dims":
                         continue
@@ -552,6 +556,12 @@ def u_plotter(W, sk):
         xa = W.array("xv", sub)
         X = SL.lab(W, xa)
         kw["x_array"] = xa
+    elif sk["xarr"] in ("line_dim_only", "subplot_dim_only", "intra_dim_only"):
+        # an x array over one dimension only: the same x for all entries that share that dimension's item
+        one = {"line_dim_only": "c", "subplot_dim_only": "s", "intra_dim_only": "x"}[sk["xarr"]]
+        xa = W.array("xv", [D[one]])
+        X = SL.lab(W, xa)
+        kw["x_array"] = xa
     snaps = SL.snapshot(W, [arr] + ([kw["x_array"]] if "x_array" in kw else []))
     trace = []
 
@@ -596,7 +606,7 @@ def u_plotter(W, sk):
         if X is None:
             W.forall_range(f"{tag}.x_is_the_items_along_the_line", [(0, n)], lambda idx, xv=xv: W.num_eq(W.elem(xv, (idx[0],)), xitem(idx[0])))
         else:
-            W.forall_range(f"{tag}.x_is_matching_entries_of_x_array", [(0, n)], lambda idx, xv=xv, fixed=fixed: W.num_eq(W.elem(xv, (idx[0],)), X.at({**{l: v for l, v in fixed.items() if l in X.letters}, "x": idx[0]})))
+            W.forall_range(f"{tag}.x_is_matching_entries_of_x_array", [(0, n)], lambda idx, xv=xv, fixed=fixed: W.num_eq(W.elem(xv, (idx[0],)), X.at({l: v for l, v in {**fixed, "x": idx[0]}.items() if l in X.letters})))
     SL.check_unchanged(W, "plotter", snaps)
 
 
